@@ -1,5 +1,6 @@
 import Cirbo.Proofs.Mutate
 import Cirbo.Proofs.MoreOps
+import Cirbo.Proofs.Histories
 import Cirbo.Proofs.RemoveGate
 /-!
 # C02 — Circuits stay well formed under every history of public mutations
@@ -16,7 +17,8 @@ import Cirbo.Proofs.RemoveGate
 -- OBLIGATION: c02_rename_gate_invariant
 -- OBLIGATION: c02_remove_block_invariant
 -- OBLIGATION: c02_history_extended
--- PARTIAL: the invariant theorem covers add_gate/emplace_gate, add_inputs, mark_as_output, set_outputs, set_inputs, order_inputs, order_outputs, replace_inputs, make_block, delete_block, remove_gate, remove_block, rename_gate, copy, make_block_from_slice and every left connection (connect_circuit(right_connect=False), connect_left, extend_circuit, add_circuit) — and into_bench (C14: c14_into_bench_keeps_invariant). the right-connect direction (connect_right, connect_inputs), replace_subcircuit are modelled one-to-one (Model/Mutate.lean, Mutate2.lean) and compared field by field with the code after every call of random histories, and every state the code produces goes through the Lean checker checkWFU, but their invariant lemmas are not proved yet. "A copy is equal to its original" and "shares no mutable state" are correspondence-only (Lean values cannot alias).
+-- OBLIGATION: c02_right_connection_invariant
+-- PARTIAL: the invariant theorem covers add_gate/emplace_gate, add_inputs, mark_as_output, set_outputs, set_inputs, order_inputs, order_outputs, replace_inputs, make_block, delete_block, remove_gate, remove_block, rename_gate, copy, make_block_from_slice and every connection in either direction (connect_circuit, connect_left, connect_right, connect_inputs, extend_circuit, add_circuit; for the right direction the loop invariant is the C02 invariant of the circuit with its input list recomputed, because the stored list names already-replaced inputs until the final set_inputs) — and into_bench (C14: c14_into_bench_keeps_invariant). replace_subcircuit is modelled one-to-one (Model/Mutate.lean, Mutate2.lean) and compared field by field with the code after every call of random histories, and every state the code produces goes through the Lean checker checkWFU, but its invariant lemma is not proved yet. "A copy is equal to its original" and "shares no mutable state" are correspondence-only (Lean values cannot alias).
 -/
 namespace Cirbo
 
@@ -77,6 +79,14 @@ final one is -/
 theorem c02_remove_block_invariant {c c' : Circuit} {name : Label} (hw : WFS c)
     (h : c.removeBlock name = .ok c') : WFS c' := removeBlock_wfs hw h
 
+/-- every right connection (`connect_circuit(right_connect=True)`, `connect_right`, `connect_inputs`,
+`extend_circuit(right_connect=True)`) of two circuits satisfying the invariant yields one that
+satisfies it: the fed inputs become gates, are registered as users of their operands and leave the
+input list; nothing else changes -/
+theorem c02_right_connection_invariant {c other c' : Circuit} {thisC otherC : List Label} {name : Label}
+    {addP : Bool} (hw : WFS c) (hwo : WFS other)
+    (h : c.connectCircuit other thisC otherC true name addP = .ok c') : WFS c' := connectRight_wfs hw hwo h
+
 /-- histories over the extended set of calls -/
 theorem c02_history_extended (ops : List XOp) {c c' : Circuit} (hw : WFS c)
     (hv : ∀ op ∈ ops, op.valid) (h : runXOps c ops = .ok c') : WFS c' := runXOps_wfs ops hw hv h
@@ -100,5 +110,7 @@ example : ∃ c', runOps Circuit.empty
 #print axioms c02_rename_gate_invariant
 #print axioms c02_remove_block_invariant
 #print axioms c02_history_extended
+
+#print axioms c02_right_connection_invariant
 
 end Cirbo
